@@ -20,6 +20,13 @@
 //     and keeps reading; the peer reads to end-of-stream, writes w2 and closes; the half-closed
 //     side reads the response. eof/last then describe the response's transport.
 //
+//   - to=<k1>,<k2>,..: read time-outs (not together with last/hc/gate=1). The reader's transport stalls after
+//     k1, k2, .. bytes of the stream (increasing offsets, anywhere: inside a record header, inside a body
+//     after one or more segments, between records): the transport Read that finds nothing returns a
+//     time-out (a temporary net.Error, what a blocked Read returns when the read deadline fires); the
+//     reader then extends its read deadline, the rest arrives and it goes on reading. The bytes
+//     before and after every stall are cut by seg (the cycle restarts after a stall).
+//
 // The transports keep deadlines the way a net.Conn does: a Read (Write) whose deadline has passed
 // fails with os.ErrDeadlineExceeded whether or not bytes are available.
 package main
@@ -51,6 +58,10 @@ type mem struct {
 	chunks   [][]byte
 	ended    bool // the peer has closed: end-of-stream after the chunks (otherwise a Read would block)
 	eofLast  bool // end-of-stream is reported together with the last chunk
+	// later: what arrives after each stall of the transport. With chunks used up and later non-empty a Read
+	// finds nothing and the reader's deadline fires (time-out); the next segment arrives once the reader
+	// has extended its read deadline
+	later    [][][]byte
 	rdl, wdl time.Time
 }
 
@@ -62,7 +73,13 @@ func (m *mem) Close() error                       { return nil }
 func (m *mem) LocalAddr() net.Addr                { return &net.TCPAddr{} }
 func (m *mem) RemoteAddr() net.Addr               { return &net.TCPAddr{} }
 func (m *mem) SetDeadline(t time.Time) error      { m.rdl, m.wdl = t, t; return nil }
-func (m *mem) SetReadDeadline(t time.Time) error  { m.rdl = t; return nil }
+func (m *mem) SetReadDeadline(t time.Time) error {
+	m.rdl = t
+	if len(m.chunks) == 0 && len(m.later) > 0 && !expired(t) {
+		m.chunks, m.later = m.later[0], m.later[1:]
+	}
+	return nil
+}
 func (m *mem) SetWriteDeadline(t time.Time) error { m.wdl = t; return nil }
 
 func (m *mem) Read(p []byte) (int, error) {
@@ -71,6 +88,10 @@ func (m *mem) Read(p []byte) (int, error) {
 	}
 	if len(p) == 0 {
 		return 0, nil
+	}
+	if len(m.chunks) == 0 && len(m.later) > 0 {
+		// nothing more for now: the Read blocks until the reader's deadline fires
+		return 0, os.ErrDeadlineExceeded
 	}
 	if len(m.chunks) == 0 {
 		if m.ended {
@@ -84,7 +105,7 @@ func (m *mem) Read(p []byte) (int, error) {
 	} else {
 		m.chunks[0] = m.chunks[0][n:]
 	}
-	if len(m.chunks) == 0 && m.ended && m.eofLast {
+	if len(m.chunks) == 0 && len(m.later) == 0 && m.ended && m.eofLast {
 		return n, io.EOF
 	}
 	return n, nil
@@ -119,6 +140,9 @@ type tconn struct {
 	remaining int // bytes of the armed stream not yet delivered
 	last      int
 	eofLast   bool
+	total     int   // length of the armed stream
+	stalls    []int // offsets of the armed stream after which the transport stalls (increasing)
+	stalled   bool  // a Read has timed out at stalls[0]; cleared when the reader extends its deadline
 }
 
 func wrap(e *pair.StreamEnd) *tconn {
@@ -133,7 +157,23 @@ func (t *tconn) arm(seg []int, total, last int, eofLast bool) {
 	}
 	t.mu.Lock()
 	t.armed, t.seg, t.i, t.remaining, t.last, t.eofLast = true, seg, 0, total, last, eofLast
+	t.total, t.stalls, t.stalled = total, nil, false
 	t.mu.Unlock()
+}
+
+func (t *tconn) setStalls(offs []int) {
+	t.mu.Lock()
+	t.stalls = append([]int(nil), offs...)
+	t.mu.Unlock()
+}
+
+// resume: the reader has extended its deadline after a time-out; the bytes behind the stall arrive
+func (t *tconn) resume(d time.Time) {
+	if t.stalled && !expired(d) {
+		t.stalled = false
+		t.stalls = t.stalls[1:]
+		t.i = 0
+	}
 }
 
 // next is the StreamEnd's MaxRead: the size of the chunk the coming Read returns
@@ -151,6 +191,11 @@ func (t *tconn) next(avail int) int {
 	if t.last > 0 && v > t.remaining-t.last {
 		v = t.remaining - t.last
 	}
+	if len(t.stalls) > 0 {
+		if room := t.stalls[0] - (t.total - t.remaining); v > room {
+			v = room
+		}
+	}
 	return v
 }
 
@@ -161,6 +206,14 @@ func (t *tconn) Read(p []byte) (int, error) {
 	if expired(rdl) {
 		return 0, os.ErrDeadlineExceeded
 	}
+	t.mu.Lock()
+	if t.armed && len(t.stalls) > 0 && t.total-t.remaining >= t.stalls[0] {
+		// nothing more for now: the Read blocks until the reader's deadline fires
+		t.stalled = true
+		t.mu.Unlock()
+		return 0, os.ErrDeadlineExceeded
+	}
+	t.mu.Unlock()
 	n, err := t.StreamEnd.Read(p)
 	t.mu.Lock()
 	if t.armed && n > 0 {
@@ -186,6 +239,7 @@ func (t *tconn) Write(p []byte) (int, error) {
 func (t *tconn) SetDeadline(d time.Time) error {
 	t.mu.Lock()
 	t.rdl, t.wdl = d, d
+	t.resume(d)
 	t.mu.Unlock()
 	return t.StreamEnd.SetReadDeadline(d)
 }
@@ -193,6 +247,7 @@ func (t *tconn) SetDeadline(d time.Time) error {
 func (t *tconn) SetReadDeadline(d time.Time) error {
 	t.mu.Lock()
 	t.rdl = d
+	t.resume(d)
 	t.mu.Unlock()
 	return t.StreamEnd.SetReadDeadline(d)
 }
@@ -236,6 +291,30 @@ func chunksOf(pat []int, last int, w []byte) [][]byte {
 	}
 	k := len(w) - last
 	return append(chunkBy(pat, w[:k]), w[k:])
+}
+
+// stallSegments cuts w at the (increasing) offsets offs and chunks every piece by pat; offsets outside
+// 1..len(w)-1 or out of order are ignored, as the oracle does
+func stallOffsets(offs []int, n int) []int {
+	var out []int
+	prev := 0
+	for _, k := range offs {
+		if k > prev && k < n {
+			out = append(out, k)
+			prev = k
+		}
+	}
+	return out
+}
+
+func stallSegments(pat []int, offs []int, w []byte) [][][]byte {
+	var out [][][]byte
+	prev := 0
+	for _, k := range stallOffsets(offs, len(w)) {
+		out = append(out, chunkBy(pat, w[prev:k]))
+		prev = k
+	}
+	return append(out, chunkBy(pat, w[prev:]))
 }
 
 // ---------------------------------------------------------------------------
@@ -287,6 +366,9 @@ func endClass(err error) string {
 		return "ok"
 	case err == io.EOF:
 		return "eof"
+	case errors.Is(err, os.ErrDeadlineExceeded):
+		// a time-out: the reader extends its deadline and reads on
+		return "to"
 	}
 	return "other"
 }
@@ -306,7 +388,10 @@ func recordLens(wire []byte) []int {
 }
 
 // readLoop cycles through bufs until the first error, then reads once more
-func readLoop(c net.Conn, bufs []int, total int) (string, []byte) {
+// With stalls (the case has a to= token) a time-out is reported as such ("to") and the reader extends its
+// read deadline and reads on; without, a time-out is an error like any other (no transport of such a case
+// ever stalls).
+func readLoop(c net.Conn, bufs []int, total int, stalls ...bool) (string, []byte) {
 	if len(bufs) == 0 {
 		bufs = []int{1024}
 	}
@@ -317,7 +402,16 @@ func readLoop(c net.Conn, bufs []int, total int) (string, []byte) {
 		b := make([]byte, bufs[i%len(bufs)])
 		n, err := c.Read(b)
 		data = append(data, b[:n]...)
-		rd = append(rd, strconv.Itoa(n)+"/"+endClass(err))
+		cls := endClass(err)
+		if cls == "to" && len(stalls) == 0 {
+			cls = "other"
+		}
+		rd = append(rd, strconv.Itoa(n)+"/"+cls)
+		if cls == "to" {
+			// a time-out is not an error of the stream: extend the deadline and go on
+			c.SetReadDeadline(time.Now().Add(time.Hour))
+			continue
+		}
 		if err != nil {
 			if extra {
 				break
@@ -393,8 +487,17 @@ func execLoop(desc string) string {
 	wire := ta.all()
 	pl := plainLens(wire, k)
 	if !hc {
-		rcv := tlcp.VerifStreamConn(&mem{chunks: chunksOf(parseInts(segS), last, wire), ended: true, eofLast: eofLast}, k, true)
-		rd, data := readLoop(rcv, parseInts(bufS), total)
+		tb := &mem{chunks: chunksOf(parseInts(segS), last, wire), ended: true, eofLast: eofLast}
+		if toS, ok := hx.KV(desc, "to"); ok {
+			segs := stallSegments(parseInts(segS), parseInts(toS), wire)
+			tb.chunks, tb.later = segs[0], segs[1:]
+		}
+		rcv := tlcp.VerifStreamConn(tb, k, true)
+		var st []bool
+		if len(tb.later) > 0 {
+			st = []bool{true}
+		}
+		rd, data := readLoop(rcv, parseInts(bufS), total, st...)
 		return fmt.Sprintf("n=%s recs=%s pl=%s reads=%s data=%s", showInts(ns), showInts(recordLens(wire)), showInts(pl), rd, hx.Hex(data))
 	}
 	// half-close: the peer reads the request to end-of-stream (its transport has not ended), answers and
@@ -543,6 +646,9 @@ func execE2E(desc string) string {
 		rt.arm(seg, sent, 0, false)
 	} else {
 		rt.arm(seg, sent, last, eofLast)
+		if toS, ok := hx.KV(desc, "to"); ok && !gated {
+			rt.setStalls(stallOffsets(parseInts(toS), sent))
+		}
 	}
 	if gated {
 		we.Inject(held)
@@ -555,7 +661,11 @@ func execE2E(desc string) string {
 		// the reader's handshake ends on the transport reads that also carry application data
 		hs = endClass(<-rdone)
 	}
-	rd, data := readLoop(r, parseInts(bufS), total)
+	var stl []bool
+	if _, ok := hx.KV(desc, "to"); ok && !gated && !hc {
+		stl = []bool{true}
+	}
+	rd, data := readLoop(r, parseInts(bufS), total, stl...)
 	out := fmt.Sprintf("bs0=%d ps0=%d pre=%s hs=%s n=%s recs=%s pl=? reads=%s data=%s", bs0, ps0, showInts(pre), hs, showInts(ns), showInts(recs), rd, hx.Hex(data))
 	if !hc {
 		return out
@@ -660,6 +770,21 @@ func main() {
 	// the transport-mode tokens (eof, last, hc) of the random cases come from a stream of their own, so
 	// that the rest of every random case is what it was before these modes existed
 	rng2 := hx.NewRand(o.Seed + 7919)
+	// and so do the read time-outs (to)
+	rng3 := hx.NewRand(o.Seed + 104729)
+	// randStalls: a quarter of the random cases whose mode allows it get 1..3 stalls at random offsets
+	randStalls := func(mode string, approxWire int) string {
+		if strings.Contains(mode, "last=") || strings.Contains(mode, "hc=") || rng3.Intn(4) != 0 {
+			return ""
+		}
+		var offs []int
+		k := 0
+		for j := 1 + rng3.Intn(3); j > 0; j-- {
+			k += 1 + rng3.Intn(hx.Pick(rng3, []int{5, 40, approxWire/2 + 2}))
+			offs = append(offs, k)
+		}
+		return " to=" + showInts(offs)
+	}
 	thorough := o.Tier == "thorough"
 	kinds := []string{"gcm", "cbc"}
 
@@ -785,6 +910,43 @@ func main() {
 				emit(fmt.Sprintf("ph=loop kind=%s dyn=%d bs=131071 ps=999 w=2500,20000 seed=%d close=1 seg=512 bufs=4096 hc=1 w2=2500,1,2500,20000 seg2=512 bufs2=4096 eof=1 last=7", kind, dyn, rng2.Intn(256)))
 			}
 		}
+		// read time-outs anywhere: the reader's transport stalls after k bytes of the stream - at every
+		// offset of a three-record stream (inside each 5-byte header, inside each body after any number of
+		// segments, at the record boundaries, inside the close-notify) - the blocked transport Read
+		// returns a time-out, the reader extends its deadline and reads on: what it reads must still be the
+		// written stream. Under four segmentations (whole pieces, 7-byte, 1-byte and 3,5-byte chunks), with
+		// the end of the transport reported with the last chunk or separately; two and three stalls in one
+		// stream (same header, header and body, consecutive records); records of 1000 and 16384 bytes
+		for _, kind := range kinds {
+			// length of the stream as the real sender produces it (three records and the close-notify)
+			probe := &mem{}
+			psnd := tlcp.VerifStreamConn(probe, kindNum(kind), false)
+			writeAll(psnd, 0, []int{9, 40, 3})
+			psnd.CloseWrite()
+			wireLen := len(probe.all())
+			for k := 1; k < wireLen; k++ {
+				for i, seg := range []string{"512", "7", "1", "3,5"} {
+					if !thorough && k > 40 && (k+i)%2 == 1 {
+						continue
+					}
+					emit(fmt.Sprintf("ph=loop kind=%s dyn=1 bs=0 ps=0 w=9,40,3 seed=%d close=%d seg=%s bufs=%s%s to=%d", kind, rng3.Intn(256), (k+i)%2, seg,
+						hx.Pick(rng3, bufPats), []string{"", " eof=1"}[(k/2+i)%2], k))
+				}
+				if k%3 == 0 {
+					emit(fmt.Sprintf("ph=loop kind=%s dyn=1 bs=0 ps=0 w=9,40,3 seed=%d close=1 seg=%s bufs=%s to=%d,%d,%d", kind, rng3.Intn(256),
+						hx.Pick(rng3, []string{"512", "7", "1", "2"}), hx.Pick(rng3, bufPats), 1+k/3, 2+k/3+rng3.Intn(3), k+3))
+				}
+			}
+			for _, to := range []string{"3", "5", "6", "100", "300", "100,300", "1,2,3,4", "4,5,6", "1028", "1030", "1040,1300", "300,1031,1500"} {
+				for _, seg := range []string{"100", "512", "64,448"} {
+					emit(fmt.Sprintf("ph=loop kind=%s dyn=1 bs=0 ps=0 w=1000,700 seed=%d close=1 seg=%s bufs=%s to=%s", kind, rng3.Intn(256), seg,
+						hx.Pick(rng3, []string{"4096", "1000", "333,1"}), to))
+				}
+			}
+			for _, to := range []string{"2", "600", "1024", "16000", "16500,16600", "20000,30000,40000"} {
+				emit(fmt.Sprintf("ph=loop kind=%s dyn=0 bs=0 ps=0 w=16384,16385 seed=%d close=1 seg=512 bufs=65536 to=%s", kind, rng3.Intn(256), to))
+			}
+		}
 		// random
 		n := 300 * o.Scale
 		if thorough {
@@ -827,8 +989,9 @@ func main() {
 			if rng.Chance(30) {
 				bs, ps = rng.Intn(140000), rng.Intn(1010)
 			}
+			mode := randMode(rng2, true)
 			emit(fmt.Sprintf("ph=loop kind=%s dyn=%d bs=%d ps=%d w=%s seed=%d close=%d seg=%s bufs=%s", hx.Pick(rng, kinds), rng.Intn(4)/3^1,
-				bs, ps, showInts(ws), rng.Intn(256), rng.Intn(2), strings.Join(seg, ","), strings.Join(bufs, ",")) + randMode(rng2, true))
+				bs, ps, showInts(ws), rng.Intn(256), rng.Intn(2), strings.Join(seg, ","), strings.Join(bufs, ",")) + mode + randStalls(mode, tot))
 		}
 	}
 
@@ -967,6 +1130,21 @@ func main() {
 				e2ex(rng2, su, m, 1, "-", 1, "512", "64", " hc=1 w2=5,5000 seg2=1 bufs2=4096 eof=1 last=3")
 			}
 		}
+		// read time-outs on real connections: every kind of connection and direction, the transport stalling
+		// inside the first record's header (every offset), inside its body after one and after several
+		// segments, at the record boundary and inside the following records; several stalls per stream
+		for _, su := range names {
+			for i, m := range plain {
+				for j, to := range []string{"1", "2", "3", "4", "5", "6", "100", "300", "100,300", "3,300,1031", "1029", "1031,1040", "1,2,3,4,5"} {
+					if !thorough && j >= 6 && (i+j)%2 == 1 {
+						continue
+					}
+					e2ex(rng3, su, m, (i+j)%2, "1000,700", 1-(i+j)%3/2, []string{"100", "512", "64,448", "1"}[(i+j)%4], hx.Pick(rng3, []string{"4096", "1000", "333,1"}),
+						[]string{"", " eof=1"}[(i+j/2)%2]+" to="+to)
+				}
+				e2ex(rng3, su, m, 1, "9,40,3", 1, "7", "16384", fmt.Sprintf(" to=%d,%d", 1+rng3.Intn(4), 6+rng3.Intn(60)))
+			}
+		}
 		n := 24 * o.Scale
 		if thorough {
 			n = 600 * o.Scale
@@ -979,9 +1157,17 @@ func main() {
 				ws = append(ws, rng.Intn(hx.Pick(rng, []int{10, 1300, 4000, 20000})))
 			}
 			m := hx.Pick(rng, all)
+			mode := randMode(rng2, m.gate == 0)
+			if m.gate == 0 {
+				tot := 0
+				for _, w := range ws {
+					tot += w
+				}
+				mode += randStalls(mode, tot)
+			}
 			e2ex(rng, su, m, rng.Intn(2), showInts(ws), rng.Intn(2),
 				fmt.Sprintf("%d,%d", hx.Pick(rng, []int{1 + rng.Intn(100), 64 + rng.Intn(448)}), 1+rng.Intn(512)),
-				fmt.Sprintf("%d,%d", 50+rng.Intn(3000), 50+rng.Intn(20000)), randMode(rng2, m.gate == 0))
+				fmt.Sprintf("%d,%d", 50+rng.Intn(3000), 50+rng.Intn(20000)), mode)
 		}
 	}
 }
